@@ -71,3 +71,31 @@ def result_leaves(fx, f, inline=None):
             else:
                 out.append(("value", show(t)[:80], dec))
     return out
+
+
+def check_must_call_on_success(run, fx, f, callee_parts, rule, key, why):
+    """every path of `f` that ends in a success value passed through a call whose path contains one of `callee_parts`
+    (a must-pass-through rule decided by CFG-path extraction on the type-checked HIR)"""
+    if f is None:
+        run.anchor_missing(rule, key, "function not found")
+        return
+    ev = H.Evaluator(fx)
+    ev.inline = lambda p: p.startswith("temporal_rs::error::")
+    args = [H.Sym("param", (p["name"],)) for p in f.params]
+    try:
+        paths = ev.paths(f, args, max_paths=400)
+    except H.Budget:
+        run.ok(rule, key, "function too large for path enumeration: not decided", f.loc, nontrivial=False)
+        return
+    succ = missing = 0
+    example = None
+    for dec, res, tr in paths:
+        if isinstance(res, H.Panic) or is_err(res):
+            continue
+        succ += 1
+        if not any(any(part in str(c.parts[0]) for part in callee_parts) for c in tr):
+            missing += 1
+            example = example or [c for c, ch in dec][-3:]
+    run.check(succ > 0 and missing == 0, rule, key, "%d success path(s), all through %s" % (succ, "/".join(callee_parts)),
+              "%s: %d of %d success paths return without %s (%s); e.g. after deciding %s" %
+              (f.name, missing, succ, "/".join(callee_parts), why, example), f.loc)
